@@ -276,3 +276,55 @@ def generate_c05(repo):
     return header, [(MAYBE_GRAFT.qual, str(e))]
   except (OSError, SyntaxError) as e:
     return header, [(MAYBE_GRAFT.qual, repr(e))]
+
+
+# ---------------------------------------------------------------------------------------------
+# C12: SM3's moving averages (closures of sm3.sm3; tensors flattened, broadcasts supplied)
+# ---------------------------------------------------------------------------------------------
+SM3_MA = Fn("sm3._moving_averages", "sm3_moving_averages",
+            [("beta2", "Q"), ("rank_lt2", "bool"), ("acc0", "vec"), ("min_acc_", "vec"), ("grad", "vec")],
+            "vec",
+            subst={"grad.ndim < 2": ("rank_lt2", "bool"), "accumulators[0]": ("acc0", "vec"),
+                   "functools.reduce(jnp.minimum, accumulators)": ("min_acc_", "vec")},
+            drop_params=("accumulators",))
+SM3_MOM = Fn("sm3._moving_averages_momentum", "sm3_moving_averages_momentum",
+             [("beta1", "Q"), ("grad", "vec"), ("momentum", "vec")], "vec",
+             subst={"momentum.to_float()": ("momentum", "vec")})
+
+
+def generate_c12(repo):
+  from tools import py2v, py2v_float
+  header = ("From Precond Require Import Base.PyLib Base.QMat Base.PyFloat.\nOpen Scope Q_scope.\n")
+  out, errors = [header], []
+  try:
+    src = open(os.path.join(repo, SM3)).read()
+  except OSError as e:
+    return header, [("read", repr(e))]
+  for fn in (SM3_MA, SM3_MOM):
+    try:
+      out.append(py2v_float.translate(src, fn))
+      out.append("")
+    except py2v.TranslationError as e:
+      errors.append((fn.qual, str(e)))
+    except SyntaxError as e:
+      errors.append((fn.qual, repr(e)))
+  return "\n".join(out), errors
+
+
+# ---------------------------------------------------------------------------------------------
+# C13: batch(x, num_devices) on the list layer (jnp.stack = identity)
+# ---------------------------------------------------------------------------------------------
+BATCH = Fn("batch", "batch_src", [("A", "Type"), ("x", "list A"), ("num_devices", "Z")], "list (list A)",
+           calls={"jnp.stack": ("", "")})
+
+
+def generate_c13(repo):
+  from tools import py2v
+  header = "From Precond Require Import Base.PyLib Base.PyLib2.\nOpen Scope Z_scope.\n"
+  try:
+    src = open(os.path.join(repo, DS)).read()
+    return header + "\n" + py2v.translate(src, BATCH)[0] + "\n", []
+  except py2v.TranslationError as e:
+    return header, [(BATCH.qual, str(e))]
+  except (OSError, SyntaxError) as e:
+    return header, [(BATCH.qual, repr(e))]
